@@ -1,3 +1,3 @@
 SPECIFICATION SpecF
-CONSTANTS NSync=6 MaxClock=4 RetentionEnabled=TRUE Fine=FALSE Variant="asis"
+CONSTANTS NSync=6 MaxClock=4 RetentionEnabled=TRUE Fine=FALSE Variant="asis" Fixes={}
 CHECK_DEADLOCK FALSE
